@@ -406,15 +406,17 @@ def mutants_of(tokens, phase: str, level: int, salt: int = 0):
 # how many mutants of one operator are kept per base (level 0, level 1); the choice rotates with the base index so
 # that over all bases every catalogue value and every position is used
 _KEEP = {
-    'delete': (0, 99), 'duplicate': (0, 4), 'transpose': (0, 4), 'truncate': (1, 12),
-    'open-quote': (0, 6), 'close-quote': (0, 2), 'reserved': (0, 5), 'append-open-quote': (0, 2),
+    'delete': (0, 99), 'duplicate': (0, 3), 'transpose': (0, 3), 'truncate': (0, 8),
+    'open-quote': (0, 5), 'close-quote': (0, 2), 'reserved': (0, 3), 'append-open-quote': (0, 2),
     'int-invalid': (1, 99), 'int-extreme': (1, 99), 'int-eval-raises': (1, 99),
     'regex-invalid': (1, 99), 'regex-weird': (1, 99), 'glob': (2, 99),
-    'str-wrong': (1, 6), 'str-weird': (1, 14), 'path-wrong': (0, 2), 'path-weird': (1, 8),
+    'str-wrong': (1, 6), 'str-weird': (0, 8), 'path-wrong': (0, 2), 'path-weird': (0, 8),
     'sym-wrong-type': (1, 99), 'sym-undefined': (1, 99), 'sym-illegal-name': (0, 99),
 }
-_GENERIC_QUICK = ('delete', 'open-quote', 'duplicate', 'transpose', 'open-quote', 'reserved', 'close-quote', 'append-open-quote',
-                  'path-wrong', 'open-quote')
+# quick tier: one of these operators per base, in rotation
+_GENERIC_QUICK = ('delete', 'open-quote', 'duplicate', 'truncate', 'transpose', 'open-quote', 'reserved', 'close-quote',
+                  'append-open-quote', 'truncate', 'path-wrong', 'open-quote', 'delete')
+_WEIRD_QUICK = ('str-weird', 'path-weird')
 
 
 def _op_of(name: str) -> str:
@@ -441,8 +443,9 @@ def _select(muts, level: int, salt: int):
         ms = groups[op]
         keep = _KEEP[op][level]
         if level == 0 and op in _GENERIC_QUICK:
-            # one of these operators per base, in rotation
             keep = 1 if _GENERIC_QUICK[salt % len(_GENERIC_QUICK)] == op else 0
+        if level == 0 and op in _WEIRD_QUICK:
+            keep = 1 if _WEIRD_QUICK[salt % len(_WEIRD_QUICK)] == op else 0
         if keep >= len(ms):
             out.extend(ms)
             continue
